@@ -17,7 +17,7 @@ import vf
 PROP = 'C13'
 CFG = {'quick': ['gen/MC_C13wrap_q.cfg', 'gen/MC_C13deep_q.cfg', 'gen/MC_C13fn_q.cfg', 'gen/MC_C13slice_q.cfg',
                  'gen/MC_C13cmp.cfg', 'gen/MC_C13ident.cfg'],
-       'thorough': ['gen/MC_C13wrap_q.cfg', 'gen/MC_C13deep_q.cfg', 'gen/MC_C13deep_t.cfg', 'gen/MC_C13mix_t.cfg', 'gen/MC_C13fn_t.cfg',
+       'thorough': ['gen/MC_C13wrap_q.cfg', 'gen/MC_C13deep_t.cfg', 'gen/MC_C13mix_t.cfg', 'gen/MC_C13fn_t.cfg',
                     'gen/MC_C13slice_t.cfg', 'gen/MC_C13cmp.cfg', 'gen/MC_C13ident.cfg']}
 DOCS_CFG = 'gen/MC_C13docs.cfg'
 RT_CFG = {'quick': 'gen/MC_C13rt_q.cfg', 'thorough': 'gen/MC_C13rt_t.cfg'}   # wrap cases emitted with their trees
@@ -536,9 +536,25 @@ def expr_of(case):
         return '?'
 
 
+def dev_of(case, doc):
+    """names of the known-deviation classes the generator put this (case, document) into (doc < 0: any document)"""
+    names = set()
+    if isinstance(case, dict):
+        for k, dn in enumerate(case.get('ds', [])):
+            if (doc is None or doc < 0 or dn == doc) and k < len(case.get('dev', [])):
+                names.update(case['dev'][k])
+    return ','.join(sorted(names))
+
+
 def sig(r):
+    """Signature of a mismatch.  A mismatch on a (case, document) that the spec classified into known-deviation classes gets
+    the coarse signature {dev, what} (matched against known_findings.jsonl; thousands of expressions share it); anything
+    else keeps the detailed signature (expression + kind)."""
     c = r['case']
-    s = {'expr': expr_of(c) if isinstance(c, dict) else str(c)[:200]}
+    dev = r['dev'] if 'dev' in r else dev_of(c, r.get('doc'))
+    if dev:
+        return {'dev': dev, 'what': r.get('what', 'crash')}
+    s = {'dev': '', 'expr': expr_of(c) if isinstance(c, dict) else str(c)[:200]}
     if 'what' in r:           # one signature per (expression, kind of disagreement); flavour / document are in the detail
         s['what'] = r['what']
     return s
@@ -595,7 +611,7 @@ def run(tier):
     g = gens(tier)
     v = validate_spec(tier, [p for p, _ in g])
     rep.add_tlc(v['rt_meta']); rep.add_tlc(v['valid_meta'])
-    totals = vf.g_replay(rep, binary, g, sig, args=['--docs', docs])
+    totals = vf.g_replay(rep, binary, g, sig, args=['--docs', docs], max_repro=600)
     cov = rep.coverage
     cov['traces_validated_against_impl'] = totals.get('cases', 0)
     cov['evaluations'] = totals.get('checks', 0)
